@@ -17,7 +17,7 @@ def run(patch):
         shutil.copy(os.path.join(HERE, "known_findings.json"), d + "/verif")
         res = {}
         for prop in props:
-            c = subprocess.run([os.path.join(HERE, "bin/slockcheck"), "-repo", d + "/repo", "-verif", d + "/verif", "-property", prop], env=ENV, capture_output=True, text=True)
+            c = subprocess.run([os.environ.get("SLOCKCHECK_BIN", os.path.join(HERE, "bin/slockcheck")), "-repo", d + "/repo", "-verif", d + "/verif", "-property", prop], env=ENV, capture_output=True, text=True)
             if c.returncode != 0:
                 lines = [l for l in c.stdout.splitlines() if re.search(r"\[C\d+/R|CHECKER-FAILURE|panic", l)]
                 res[prop] = (c.returncode, lines[:6])
